@@ -120,12 +120,114 @@ def showOutcome : Outcome String → String
   | .u2Fail a1 a2 => s!"{showA1 a1} r=ok {showA2 a2} u2=err:wire"
   | .u3Fail a1 a2 a3 => s!"{showA1 a1} r=ok {showA2 a2} i=ok {showA3 a3} u3=err:wire"
 
+/-! ## Connection level (`conn` ops): random nonces, relative alterations.  The model is run with the
+symbolic challenge function `H a b = (a, b, 0)`; `cx` xors the third component. -/
+
+abbrev SymC := Nat × Nat × Nat
+def symH (a b : Nat) : SymC := (a, b, 0)
+
+structure Rel where
+  p : Option String := none
+  nx : Nat := 0
+  cx : Option (Nat × Nat) := none
+  used : Bool := false
+
+def parseRel (s : String) (allow : List String) : Option Rel :=
+  (splitList s).foldlM (fun (t : Rel) item =>
+    match item.splitOn "=" with
+    | [k, v] =>
+      if v = "" || !allow.contains k then none
+      else if k = "p" then (if t.p.isNone then some { t with p := some (pstr v), used := true } else none)
+      else if k = "nx" then
+        match parseU64 v with
+        | some x => if t.nx = 0 then some { t with nx := x, used := true } else none
+        | none => none
+      else if k = "cx" then
+        match v.splitOn "." with
+        | [a, b] =>
+          match parseU64 a, parseU64 b with
+          | some pos, some mask =>
+            if pos ≤ 31 && mask ≤ 255 && t.cx.isNone then some { t with cx := some (pos, mask), used := true }
+            else none
+          | _, _ => none
+        | _ => none
+      else none
+    | _ => none) {}
+
+def Rel.chal (t : Rel) (c : SymC) : SymC :=
+  match t.cx with
+  | some (pos, mask) => (c.1, c.2.1, c.2.2 ^^^ (mask <<< (8 * pos)))
+  | none => c
+
+structure ConnCase where
+  role : String
+  p1 : String
+  p2 : String
+  t1 : Rel
+  t2 : Rel
+  t3 : Rel
+
+def parseConn (line : String) : Option ConnCase :=
+  match line.splitOn " " with
+  | ["conn", role, p1, p2, t1, t2, t3] => do
+    if (role ≠ "R" && role ≠ "I") || p1 = "" || p2 = "" then none
+    let t1 ← parseRel t1 ["p", "nx"]
+    let t2 ← parseRel t2 ["p", "nx", "cx"]
+    let t3 ← parseRel t3 ["cx"]
+    if (role = "R" && t2.used) || (role = "I" && (t1.used || t3.used)) then none
+    pure ⟨role, pstr p1, pstr p2, t1, t2, t3⟩
+  | _ => none
+
+def ConnCase.net (c : ConnCase) : Net SymC where
+  f1 := fun m => ⟨m.nonce ^^^ c.t1.nx, c.t1.p.getD m.proto⟩
+  f2 := fun m => ⟨m.nonce ^^^ c.t2.nx, c.t2.chal m.challenge, c.t2.p.getD m.proto⟩
+  f3 := fun m => ⟨c.t3.chal m.challenge⟩
+
+def symN1 : Nat := 1000003
+def symN2 : Nat := 2000003
+
+def showConn : Outcome SymC → String
+  | .rFail _ e => s!"init=err:io resp={showErr e}"
+  | .iFail _ _ e => s!"init={showErr e} resp=err:io"
+  | .fFail _ _ _ e => s!"init=ok resp={showErr e}"
+  | .done .. => "init=ok resp=ok"
+  | _ => "init=? resp=?"
+
+def modelConn (c : ConnCase) : String :=
+  showConn (run symH symN1 c.p1 symN2 c.p2 c.net)
+
+def monitorConn (c : ConnCase) (obs : String) : String :=
+  match obs.splitOn " " with
+  | [i, r] =>
+    if !(i.startsWith "init=" && r.startsWith "resp=") then "FAIL unparsable-observation" else
+    let initOk := i == "init=ok"
+    let respOk := r == "resp=ok"
+    -- the responder completes iff all four conditions hold; the initiator is done iff the first three do
+    if respOk != expectedComplete symH symN1 c.p1 symN2 c.p2 c.net then
+      (if respOk then "FAIL responder-completed-but-conditions-do-not-hold"
+       else "FAIL responder-failed-although-all-conditions-hold")
+    else if initOk != expectedInitiatorDone symH symN1 c.p1 symN2 c.p2 c.net then
+      (if initOk then "FAIL initiator-completed-but-conditions-do-not-hold"
+       else "FAIL initiator-failed-although-all-conditions-hold")
+    else "ok"
+  | _ => "FAIL unparsable-observation"
+
 def model (line : String) : String :=
+  if line.startsWith "conn " then
+    match parseConn line with
+    | some c => modelConn c
+    | none => "bad-op"
+  else
   match parseCase line with
   | none => "bad-op"
   | some c => showOutcome (runWire (lookupH c.tab) c.n1 c.p1 c.n2 c.p2 c.net)
 
 def monitor (op obs : String) : String :=
+  if op.startsWith "conn " then
+    match parseConn op with
+    | some c => monitorConn c obs
+    | none => if obs = "bad-op" then "ok" else "FAIL bad-op"
+  else
   match parseCase op with
   | none => if obs = "bad-op" then "ok" else "FAIL bad-op"
   | some c =>
